@@ -49,6 +49,10 @@ impl TargetSpec {
     }
 }
 
+pub fn per_call_target(call: usize, k: usize) -> TargetSpec {
+    TargetSpec { id: format!("d{call}-{k}"), addr: format!("10.{}.{}.{}:{}", (call / 250) % 250, call % 250, (k % 250) + 1, 25_000 + (k % 1000)), meta: [("call".to_string(), call.to_string())].into_iter().collect() }
+}
+
 pub fn targets_json(ts: &[Target]) -> Value {
     Value::Array(
         ts.iter()
@@ -68,6 +72,9 @@ pub struct PropSpec {
 pub enum AuthRes {
     /// vouch for exactly what the client claimed
     Claim,
+    /// vouch for an identity derived from the claim (so that it differs from it and from everybody else's):
+    /// name "v-<claimed name>", the claimed UUID with its low 64 bits inverted, one property naming the claim
+    Derived,
     Profile {
         name: String,
         uuid: String,
@@ -79,6 +86,9 @@ pub enum AuthRes {
 #[derive(Clone, Debug, Serialize, Deserialize, PartialEq)]
 pub enum DiscRes {
     Targets(Vec<TargetSpec>),
+    /// every call returns its own list of `n` targets ("d<call>-<k>" at 10.<call/250>.<call%250>.<k+1>:<25000+k>):
+    /// an answer that is handed to anybody but the caller shows
+    PerCall { n: usize },
     Error,
 }
 
@@ -97,6 +107,8 @@ pub enum FiltRes {
 #[derive(Clone, Debug, Serialize, Deserialize, PartialEq)]
 pub enum StratRes {
     First,
+    /// the index is taken from the player's UUID (different players, different picks)
+    ByUser,
     Index(usize),
     Target(TargetSpec),
     None,
@@ -388,6 +400,12 @@ impl AuthenticationAdapter for SimAuth {
                 properties: vec![],
                 profile_actions: vec![],
             }),
+            AuthRes::Derived => Ok(Profile {
+                id: Uuid::from_u128(user.1.as_u128() ^ 0xffff_ffff_ffff_ffff),
+                name: format!("v-{}", user.0),
+                properties: vec![ProfileProperty { name: "claimed".into(), value: user.0.to_string(), signature: None }],
+                profile_actions: vec![],
+            }),
             AuthRes::Profile { name, uuid, props } => Ok(Profile {
                 id: Uuid::from_u128(u128::from_str_radix(uuid, 16).unwrap_or(0)),
                 name: name.clone(),
@@ -424,6 +442,7 @@ impl DiscoveryAdapter for SimDiscovery {
         wait(&self.sh, "discovery", i, call.lat_ns).await;
         let res = match &call.res {
             DiscRes::Targets(ts) => Ok(ts.iter().map(TargetSpec::to_target).collect::<Vec<_>>()),
+            DiscRes::PerCall { n } => Ok((0..*n).map(|k| per_call_target(i as usize, k).to_target()).collect::<Vec<_>>()),
             DiscRes::Error => Err(sim_err()),
         };
         let shown = match &res {
@@ -508,6 +527,7 @@ impl StrategyAdapter for SimStrategy {
         wait(&self.sh, "strategy", i, call.lat_ns).await;
         let res = match &call.res {
             StratRes::First => Ok(targets.first().cloned()),
+            StratRes::ByUser => Ok(if targets.is_empty() { None } else { targets.get((user.1.as_u128() % targets.len() as u128) as usize).cloned() }),
             StratRes::Index(j) => Ok(targets.get(*j).cloned()),
             StratRes::Target(t) => Ok(Some(t.to_target())),
             StratRes::None => Ok(None),
